@@ -11,12 +11,22 @@ open CR CR.Py CR.Batch
 
 /-! ## `List.forM` in `Except` -/
 
+theorem forM_nil' {ε α : Type} (f : α → Except ε Unit) : ([] : List α).forM f = .ok () := rfl
+
+theorem forM_cons' {ε α : Type} (f : α → Except ε Unit) (a : α) (l : List α) :
+    (a :: l).forM f = match f a with
+      | .error e => .error e
+      | .ok _ => l.forM f := by
+  show (f a >>= fun _ => l.forM f) = _
+  cases f a <;> rfl
+
 theorem forM_ok_iff {ε α : Type} (f : α → Except ε Unit) (l : List α) :
     l.forM f = .ok () ↔ ∀ x ∈ l, f x = .ok () := by
   induction l with
-  | nil => simp [pure, Except.pure]
+  | nil => simp [forM_nil']
   | cons a l ih =>
-    simp only [List.forM_cons, bind, Except.bind, List.mem_cons, forall_eq_or_imp]
+    rw [forM_cons']
+    simp only [List.mem_cons, forall_eq_or_imp]
     cases h : f a with
     | error e => simp
     | ok u => cases u; simpa using ih
@@ -24,9 +34,9 @@ theorem forM_ok_iff {ε α : Type} (f : α → Except ε Unit) (l : List α) :
 theorem forM_error {ε α : Type} (f : α → Except ε Unit) (l : List α) (e : ε)
     (h : l.forM f = .error e) : ∃ x ∈ l, f x = .error e := by
   induction l with
-  | nil => simp [pure, Except.pure] at h
+  | nil => simp [forM_nil'] at h
   | cons a l ih =>
-    simp only [List.forM_cons, bind, Except.bind] at h
+    rw [forM_cons'] at h
     cases h' : f a with
     | error e' =>
       rw [h'] at h
@@ -59,6 +69,377 @@ def checkTr (n : Nat) (owner : Owner) (e : PyVal) : Except Err Unit :=
 
 theorem checkNextStates_list (n : Nat) (o : Owner) (xs : List PyVal) :
     checkNextStates n o (.list xs) = xs.forM (checkTr n o) := rfl
+
+/-- the first slot of a transition tuple has the type required by the owner of the state -/
+def okA (o : Owner) (a : PyVal) : Bool := if o = .prob then isNumber a else isStr a
+
+theorem checkTr_pair (n : Nat) (o : Owner) (a b : PyVal) :
+    checkTr n o (.tuple [a, b]) =
+      if okA o a = false then
+        .error (.malformed (if o = .prob then "probability must be a number" else "action must be a str"))
+      else match asInt b with
+        | none => .error (.malformed "next state must be an int")
+        | some i => if i < 0 ∨ (n : Int) ≤ i then .error (.malformed "next state out of range") else .ok () := by
+  cases o <;> cases h1 : isNumber a <;> cases h2 : isStr a <;> cases h3 : asInt b <;>
+    simp [checkTr, okA, h1, h2, h3, bind, Except.bind, pure, Except.pure, throw, throwThe, MonadExceptOf.throw]
+
+theorem checkTr_not_pair (n : Nat) (o : Owner) (e : PyVal) (h : ∀ a b, e ≠ .tuple [a, b]) :
+    ∃ rule, checkTr n o e = .error (.malformed rule) := by
+  unfold checkTr
+  split
+  · exact absurd rfl (h _ _)
+  · exact ⟨_, rfl⟩
+  · exact ⟨_, rfl⟩
+
+theorem checkTr_error (n : Nat) (o : Owner) (e : PyVal) (err : Err)
+    (h : checkTr n o e = .error err) : ∃ rule, err = .malformed rule := by
+  by_cases hp : ∃ a b, e = .tuple [a, b]
+  · obtain ⟨a, b, rfl⟩ := hp
+    rw [checkTr_pair] at h
+    cases hA : okA o a
+    · simp only [hA, if_true] at h
+      exact ⟨_, (Except.error.inj h).symm⟩
+    · cases hB : asInt b with
+      | none =>
+        simp [hA, hB] at h
+        exact ⟨_, h.symm⟩
+      | some i =>
+        by_cases hr : i < 0 ∨ (n : Int) ≤ i
+        · simp [hA, hB, hr] at h
+          exact ⟨_, h.symm⟩
+        · simp [hA, hB, hr] at h
+  · obtain ⟨r, hr⟩ := checkTr_not_pair n o e (fun a b he => hp ⟨a, b, he⟩)
+    rw [hr] at h
+    exact ⟨r, (Except.error.inj h).symm⟩
+
+theorem okA_iff (o : Owner) (a : PyVal) :
+    okA o a = true ↔ (o = .prob → isNumber a = true) ∧ (o ≠ .prob → isStr a = true) := by
+  unfold okA
+  by_cases ho : o = .prob <;> simp [ho]
+
+theorem checkTr_ok_iff (n : Nat) (o : Owner) (e : PyVal) :
+    checkTr n o e = .ok () ↔ GoodTr n o e := by
+  by_cases hp : ∃ a b, e = .tuple [a, b]
+  · obtain ⟨a, b, rfl⟩ := hp
+    rw [checkTr_pair]
+    unfold GoodTr
+    constructor
+    · intro h
+      cases hA : okA o a
+      · simp [hA] at h
+      · cases hB : asInt b with
+        | none => simp [hA, hB] at h
+        | some i =>
+          by_cases hr : i < 0 ∨ (n : Int) ≤ i
+          · simp [hA, hB, hr] at h
+          · have := (okA_iff o a).1 hA
+            exact ⟨a, b, i, rfl, this.1, this.2, hB, by omega, by omega⟩
+    · rintro ⟨a', b', i, he, h1, h2, h3, h4, h5⟩
+      simp only [PyVal.tuple.injEq, List.cons.injEq, and_true] at he
+      obtain ⟨rfl, rfl⟩ := he
+      have hA : okA o a = true := (okA_iff o a).2 ⟨h1, h2⟩
+      have hr : ¬ (i < 0 ∨ (n : Int) ≤ i) := by omega
+      simp [hA, h3, hr]
+  · constructor
+    · intro h
+      obtain ⟨r, hr⟩ := checkTr_not_pair n o e (fun a b he => hp ⟨a, b, he⟩)
+      rw [hr] at h; cases h
+    · rintro ⟨a, b, _, he, _⟩
+      exact absurd ⟨a, b, he⟩ hp
+
+theorem checkNextStates_not_list (n : Nat) (o : Owner) (v : PyVal) (h : ∀ xs, v ≠ .list xs) :
+    checkNextStates n o v = .error (.malformed "next states must be a list") := by
+  cases v <;> first | rfl | exact absurd rfl (h _)
+
+theorem checkNextStates_error (n : Nat) (o : Owner) (v : PyVal) (err : Err)
+    (h : checkNextStates n o v = .error err) : ∃ rule, err = .malformed rule := by
+  by_cases hl : ∃ xs, v = .list xs
+  · obtain ⟨xs, rfl⟩ := hl
+    rw [checkNextStates_list] at h
+    obtain ⟨x, _, hx⟩ := forM_error _ _ _ h
+    exact checkTr_error n o x err hx
+  · rw [checkNextStates_not_list n o v (fun xs he => hl ⟨xs, he⟩)] at h
+    exact ⟨_, (Except.error.inj h).symm⟩
+
+theorem checkNextStates_ok_iff (n : Nat) (o : Owner) (v : PyVal) :
+    checkNextStates n o v = .ok () ↔ ∃ xs, v = .list xs ∧ ∀ e ∈ xs, GoodTr n o e := by
+  by_cases hl : ∃ xs, v = .list xs
+  · obtain ⟨xs, rfl⟩ := hl
+    rw [checkNextStates_list, forM_ok_iff]
+    simp only [checkTr_ok_iff, PyVal.list.injEq, exists_eq_left']
+  · rw [checkNextStates_not_list n o v (fun xs he => hl ⟨xs, he⟩)]
+    constructor
+    · intro h; cases h
+    · rintro ⟨xs, he, _⟩; exact absurd ⟨xs, he⟩ hl
+
+/-! ## `validate` -/
+
+/-- the per-state step of `init_states` -/
+def checkState (n : Nat) (pv : String × PyVal) : Except Err Unit :=
+  if truthy pv.2 then checkNextStates n ((playerOf pv.1).getD .prob) pv.2 else .ok ()
+
+/-- `validate` without join points -/
+def validate' (g : PyGame) : Except Err Unit :=
+  if g.tl.length ≠ g.players.length then .error (.malformed "transition list length") else
+  if g.rewards.length ≠ g.players.length then .error (.malformed "reward list length") else
+  if g.rewards.isEmpty then .error (.malformed "min of empty rewards") else
+  if g.rewards.any PyNum.isNeg then .error (.malformed "negative reward") else
+  if g.finals.isEmpty then .error (.malformed "max of empty final states") else
+  if g.finals.any (fun f => f ≥ (g.players.length : Int) || f < 0) then
+    .error (.malformed "final state out of range") else
+  if g.players.any (fun p => (playerOf p).isNone) then .error (.malformed "unknown player") else
+  match (g.players.zip g.tl).forM (checkState g.players.length) with
+  | .error e => .error e
+  | .ok _ =>
+    if g.tl.any (fun v => !truthy v) then .error (.malformed "missing transitions") else .ok ()
+
+theorem validate_eq (g : PyGame) : validate g = validate' g := by
+  unfold validate validate'
+  dsimp only []
+  by_cases h1 : g.tl.length ≠ g.players.length
+  · rw [if_pos h1, if_pos h1]; rfl
+  rw [if_neg h1, if_neg h1]
+  by_cases h2 : g.rewards.length ≠ g.players.length
+  · rw [if_pos h2, if_pos h2]; rfl
+  rw [if_neg h2, if_neg h2]
+  by_cases h3 : g.rewards.isEmpty = true
+  · rw [if_pos h3, if_pos h3]; rfl
+  rw [if_neg h3, if_neg h3]
+  by_cases h4 : g.rewards.any PyNum.isNeg = true
+  · rw [if_pos h4, if_pos h4]; rfl
+  rw [if_neg h4, if_neg h4]
+  by_cases h5 : g.finals.isEmpty = true
+  · rw [if_pos h5, if_pos h5]; rfl
+  rw [if_neg h5, if_neg h5]
+  by_cases h6 : g.finals.any (fun f => f ≥ (g.players.length : Int) || f < 0) = true
+  · rw [if_pos h6, if_pos h6]; rfl
+  rw [if_neg h6, if_neg h6]
+  by_cases h7 : g.players.any (fun p => (playerOf p).isNone) = true
+  · rw [if_pos h7, if_pos h7]; rfl
+  rw [if_neg h7, if_neg h7]
+  show ((g.players.zip g.tl).forM (checkState g.players.length) >>= fun _ => _) = _
+  cases (g.players.zip g.tl).forM (checkState g.players.length) <;> rfl
+
+/-! ## the documented well-formedness rules -/
+
+/-- `p` is one of the three documented player names -/
+def Known (p : String) : Prop := p = "Player 1" ∨ p = "Player 2" ∨ p = "Probabilistic"
+
+theorem playerOf_isNone (p : String) : (playerOf p).isNone = false ↔ Known p := by
+  unfold playerOf Known
+  by_cases h1 : p = "Player 1"
+  · simp [h1]
+  by_cases h2 : p = "Player 2"
+  · simp [h2]
+  by_cases h3 : p = "Probabilistic"
+  · simp [h3]
+  simp [h1, h2, h3]
+
+theorem owner_prob_iff (p : String) (h : Known p) :
+    (playerOf p).getD .prob = .prob ↔ p = "Probabilistic" := by
+  rcases h with rfl | rfl | rfl <;> simp [playerOf] <;> decide
+
+/-- the documented rule for the transition-list entry `v` of a state owned by `p` -/
+def GoodState (n : Nat) (p : String) (v : PyVal) : Prop :=
+  ∃ xs, v = .list xs ∧ xs ≠ [] ∧
+    ∀ e ∈ xs, ∃ a b i, e = .tuple [a, b] ∧
+      (p = "Probabilistic" → isNumber a = true) ∧
+      (p ≠ "Probabilistic" → isStr a = true) ∧
+      asInt b = some i ∧ 0 ≤ i ∧ i < (n : Int)
+
+theorem goodState_iff (n : Nat) (p : String) (v : PyVal) (hp : Known p) :
+    (checkState n (p, v) = .ok () ∧ truthy v = true) ↔ GoodState n p v := by
+  have ho := owner_prob_iff p hp
+  unfold checkState GoodState
+  constructor
+  · rintro ⟨h1, h2⟩
+    simp only [h2, if_true] at h1
+    obtain ⟨xs, rfl, hxs⟩ := (checkNextStates_ok_iff _ _ _).1 h1
+    refine ⟨xs, rfl, ?_, ?_⟩
+    · rintro rfl; simp [truthy] at h2
+    · intro e he
+      obtain ⟨a, b, i, h⟩ := hxs e he
+      simp only [ne_eq, ho] at h
+      exact ⟨a, b, i, h⟩
+  · rintro ⟨xs, rfl, hne, hxs⟩
+    have ht : truthy (.list xs) = true := by
+      cases xs with
+      | nil => exact absurd rfl hne
+      | cons => rfl
+    refine ⟨?_, ht⟩
+    simp only [ht, if_true]
+    refine (checkNextStates_ok_iff _ _ _).2 ⟨xs, rfl, ?_⟩
+    intro e he
+    obtain ⟨a, b, i, h⟩ := hxs e he
+    simp only [GoodTr, ne_eq, ho]
+    exact ⟨a, b, i, h⟩
+
+theorem forall_mem_zip {α β : Type} (l1 : List α) (l2 : List β) (P : α × β → Prop) :
+    (∀ x ∈ l1.zip l2, P x) ↔ ∀ k (h1 : k < l1.length) (h2 : k < l2.length), P (l1[k], l2[k]) := by
+  constructor
+  · intro h k h1 h2
+    have hk : k < (l1.zip l2).length := by simp [List.length_zip]; omega
+    have := h _ (List.getElem_mem hk)
+    simpa [List.getElem_zip] using this
+  · intro h x hx
+    obtain ⟨k, hk, rfl⟩ := List.mem_iff_getElem.1 hx
+    have hk' := hk
+    simp only [List.length_zip] at hk'
+    rw [List.getElem_zip]
+    exact h k (by omega) (by omega)
+
+theorem checkState_error (n : Nat) (pv : String × PyVal) (e : Err)
+    (h : checkState n pv = .error e) : ∃ rule, e = .malformed rule := by
+  unfold checkState at h
+  split at h
+  · exact checkNextStates_error _ _ _ _ h
+  · cases h
+
+theorem validate'_error (g : PyGame) (e : Err) (h : validate' g = .error e) :
+    ∃ rule, e = .malformed rule := by
+  unfold validate' at h
+  repeat' split at h
+  all_goals first
+    | exact ⟨_, (Except.error.inj h).symm⟩
+    | (cases h; rename_i heq
+       obtain ⟨x, _, hx⟩ := forM_error _ _ _ heq
+       exact checkState_error _ _ _ hx)
+    | cases h
+
+theorem validate'_ok_iff_checks (g : PyGame) : validate' g = .ok () ↔
+    (g.tl.length = g.players.length ∧ g.rewards.length = g.players.length ∧
+     g.rewards.isEmpty = false ∧ g.rewards.any PyNum.isNeg = false ∧ g.finals.isEmpty = false ∧
+     g.finals.any (fun f => f ≥ (g.players.length : Int) || f < 0) = false ∧
+     g.players.any (fun p => (playerOf p).isNone) = false ∧
+     (g.players.zip g.tl).forM (checkState g.players.length) = .ok () ∧
+     g.tl.any (fun v => !truthy v) = false) := by
+  unfold validate'
+  by_cases h1 : g.tl.length = g.players.length <;> simp only [h1, ne_eq, not_true_eq_false, not_false_eq_true, if_true, if_false, false_and, true_and, reduceCtorEq]
+  by_cases h2 : g.rewards.length = g.players.length <;> simp only [h2, not_true_eq_false, not_false_eq_true, if_true, if_false, false_and, true_and, reduceCtorEq]
+  cases h3 : g.rewards.isEmpty <;> simp only [ if_true, if_false, false_and, true_and, reduceCtorEq, Bool.false_eq_true, Bool.true_eq_false]
+  cases h4 : g.rewards.any PyNum.isNeg <;> simp only [ if_true, if_false, false_and, true_and, reduceCtorEq, Bool.false_eq_true, Bool.true_eq_false]
+  cases h5 : g.finals.isEmpty <;> simp only [ if_true, if_false, false_and, true_and, reduceCtorEq, Bool.false_eq_true, Bool.true_eq_false]
+  cases h6 : g.finals.any (fun f => decide (f ≥ (g.players.length : Int)) || decide (f < 0)) <;> simp only [ if_true, if_false, false_and, true_and, reduceCtorEq, Bool.false_eq_true, Bool.true_eq_false]
+  cases h7 : g.players.any (fun p => (playerOf p).isNone) <;> simp only [ if_true, if_false, false_and, true_and, reduceCtorEq, Bool.false_eq_true, Bool.true_eq_false]
+  cases h8 : (g.players.zip g.tl).forM (checkState g.players.length) with
+  | error e => simp
+  | ok u =>
+    cases u
+    cases h9 : g.tl.any (fun v => !truthy v) <;> simp
+
+/-- the documented well-formedness rules, independent of the order of checks
+(same body as `CR.C09.DocWellFormed`) -/
+def WF (g : PyGame) : Prop :=
+  g.tl.length = g.players.length ∧ g.rewards.length = g.players.length ∧
+  (∀ r ∈ g.rewards, r.isNeg = false) ∧
+  g.finals ≠ [] ∧ (∀ f ∈ g.finals, 0 ≤ f ∧ f < (g.players.length : Int)) ∧
+  (∀ p ∈ g.players, p = "Player 1" ∨ p = "Player 2" ∨ p = "Probabilistic") ∧
+  (∀ k, k < g.players.length → ∃ xs, g.tl.getD k .none = .list xs ∧ xs ≠ [] ∧
+    ∀ e ∈ xs, ∃ a b i, e = .tuple [a, b] ∧
+      (g.players.getD k "" = "Probabilistic" → isNumber a = true) ∧
+      (g.players.getD k "" ≠ "Probabilistic" → isStr a = true) ∧
+      asInt b = some i ∧ 0 ≤ i ∧ i < (g.players.length : Int))
+
+theorem checks_iff_WF (g : PyGame) :
+    (g.tl.length = g.players.length ∧ g.rewards.length = g.players.length ∧
+     g.rewards.isEmpty = false ∧ g.rewards.any PyNum.isNeg = false ∧ g.finals.isEmpty = false ∧
+     g.finals.any (fun f => f ≥ (g.players.length : Int) || f < 0) = false ∧
+     g.players.any (fun p => (playerOf p).isNone) = false ∧
+     (g.players.zip g.tl).forM (checkState g.players.length) = .ok () ∧
+     g.tl.any (fun v => !truthy v) = false) ↔ WF g := by
+  constructor
+  · rintro ⟨h1, h2, h3, h4, h5, h6, h7, h8, h9⟩
+    have hK : ∀ p ∈ g.players, Known p := by
+      intro p hp
+      rw [List.any_eq_false] at h7
+      exact (playerOf_isNone p).1 (Bool.eq_false_iff.2 (h7 p hp))
+    refine ⟨h1, h2, ?_, ?_, ?_, hK, ?_⟩
+    · intro r hr
+      rw [List.any_eq_false] at h4
+      simpa using h4 r hr
+    · rintro hf; rw [hf] at h5; cases h5
+    · intro f hf
+      rw [List.any_eq_false] at h6
+      have := h6 f hf
+      simp at this
+      omega
+    · intro k hk
+      have hk' : k < g.tl.length := by omega
+      rw [← List.getElem_eq_getD (h := hk'), ← List.getElem_eq_getD (h := hk)]
+      rw [forM_ok_iff, forall_mem_zip] at h8
+      rw [List.any_eq_false] at h9
+      have ht : truthy g.tl[k] = true := by simpa using h9 _ (List.getElem_mem hk')
+      exact (goodState_iff _ _ _ (hK _ (List.getElem_mem hk))).1 ⟨h8 k hk hk', ht⟩
+  · rintro ⟨h1, h2, h3, h4, h5, h6, h7⟩
+    have hS : ∀ k (hk : k < g.players.length) (hk' : k < g.tl.length),
+        GoodState g.players.length g.players[k] g.tl[k] := by
+      intro k hk hk'
+      have := h7 k hk
+      rw [← List.getElem_eq_getD (h := hk'), ← List.getElem_eq_getD (h := hk)] at this
+      exact this
+    have hn : 0 < g.players.length := by
+      cases hf : g.finals with
+      | nil => exact absurd hf h4
+      | cons f fs =>
+        have := h5 f (by simp [hf])
+        omega
+    refine ⟨h1, h2, ?_, ?_, ?_, ?_, ?_, ?_, ?_⟩
+    · cases hr : g.rewards with
+      | nil => rw [hr] at h2; simp at h2; omega
+      | cons => rfl
+    · rw [List.any_eq_false]; intro r hr; simp [h3 r hr]
+    · cases hf : g.finals with
+      | nil => exact absurd hf h4
+      | cons => rfl
+    · rw [List.any_eq_false]; intro f hf
+      have := h5 f hf
+      simp; omega
+    · rw [List.any_eq_false]; intro p hp
+      simp [(playerOf_isNone p).2 (h6 p hp)]
+    · rw [forM_ok_iff, forall_mem_zip]
+      intro k hk hk'
+      exact ((goodState_iff _ _ _ (h6 _ (List.getElem_mem hk))).2 (hS k hk hk')).1
+    · rw [List.any_eq_false]; intro v hv
+      obtain ⟨k, hk', rfl⟩ := List.mem_iff_getElem.1 hv
+      have hk : k < g.players.length := by omega
+      simp [((goodState_iff _ _ _ (h6 _ (List.getElem_mem hk))).2 (hS k hk hk')).2]
+
+theorem validate_ok_iff (g : PyGame) : validate g = .ok () ↔ WF g := by
+  rw [validate_eq, validate'_ok_iff_checks, checks_iff_WF]
+
+theorem validate_error (g : PyGame) (e : Err) (h : validate g = .error e) :
+    ∃ rule, e = .malformed rule := by
+  rw [validate_eq] at h
+  exact validate'_error g e h
+
+theorem validate_of_not_WF (g : PyGame) (h : ¬ WF g) :
+    ∃ rule, validate g = .error (.malformed rule) := by
+  cases hv : validate g with
+  | error e =>
+    obtain ⟨r, rfl⟩ := validate_error g e hv
+    exact ⟨r, rfl⟩
+  | ok u => cases u; exact absurd ((validate_ok_iff g).1 hv) h
+
+/-! ## `solvePy` -/
+
+theorem solvePy_eq (thr : Float) (fuel : Nat) (prune : Bool) (g : PyGame) :
+    solvePy thr fuel prune g = match validate g with
+      | .error e => .error e
+      | .ok _ => solve (roundFloat 6) thr fuel prune (toGame g) := by
+  show (validate g >>= fun _ => _) = _
+  cases validate g <;> rfl
+
+theorem solvePy_ok_WF (thr : Float) (fuel : Nat) (prune : Bool) (g : PyGame) (out : SolveOut Float)
+    (h : solvePy thr fuel prune g = .ok out) : WF g := by
+  rw [solvePy_eq] at h
+  cases hv : validate g with
+  | error e => rw [hv] at h; cases h
+  | ok u => cases u; exact (validate_ok_iff g).1 hv
+
+theorem solvePy_of_not_WF (thr : Float) (fuel : Nat) (prune : Bool) (g : PyGame) (h : ¬ WF g) :
+    ∃ rule, solvePy thr fuel prune g = .error (.malformed rule) := by
+  obtain ⟨r, hr⟩ := validate_of_not_WF g h
+  exact ⟨r, by rw [solvePy_eq, hr]⟩
 
 end ValidateLemmas
 end CR
